@@ -4,7 +4,8 @@ TLC checks MDInit (seeding order, RNG stream position, DoF table per engine and 
 initial-velocity branches, the COM-removal schedule) over engines x COM modes x velocity sources x
 seeds x prior RNG histories: SeedDeterminism, UserVelUntouched, ComSchedule, DofSet; the "seed after
 initialize" and "supplied velocities stripped" deviations are refuted as spec mutants.  Every exported
-configuration is replayed on the real run loop (stub ES, padded H2O+H2 batch): n_dof, number of
+configuration is replayed on the real run loop (stub ES; padded NH3+H2O batch, and a padded H2O+H2 batch for the
+diatomic DoF rule 3N-5): n_dof, number of
 normal draws, COM calls (iteration, mode) must equal the model's; runs with a seed must be bitwise
 identical whatever was drawn before; seeds 1 and 2 must differ; supplied velocities must be the step-0
 row bit for bit; padding atoms at rest.  Monitored algebra: T0 = T, P = 0, L = 0 for drawn velocities,
@@ -16,7 +17,8 @@ from drivers import init_driver
 from harness import common, tlc
 
 PROP = "C13"
-INV = ["SeedDeterminism", "UserVelUntouched", "ComSchedule", "DofSet"]
+INV = ["SeedDeterminism", "UserVelUntouched", "ComSchedule", "DofSet", "DofPositive"]
+SYSTEMS = {"nh3_h2o": (4, 3), "h2o_h2": (3, 2)}   # the second one contains a diatomic (linear) molecule
 STEPS, STRIDE = 5, 2
 
 
@@ -24,7 +26,7 @@ def main(tier):
     rep = common.Reporter(PROP, tier)
     scratch = common.scratch_dir("c13")
     try:
-        base = dict(Steps=STEPS, Stride=STRIDE, NAtoms=4)
+        base = dict(Steps=STEPS, Stride=STRIDE, N1=4, N2=3)
         r = tlc.run("MDInit", dict(spec="Spec", constants=dict(base, SeedMode="first", UserVelMode="asis"), invariants=INV), scratch=scratch)
         if r.error:
             rep.machinery("TLC MDInit: " + r.error[:500])
@@ -38,7 +40,13 @@ def main(tier):
                 rep.machinery(f"vacuity: deviation {sm}/{uv} not refuted")
         out = os.path.join(scratch, "mdinit.ndjson")
         g = tlc.run("MDInitGen", dict(spec="Spec", constants=dict(base, SeedMode="first", UserVelMode="asis"), invariants=INV + ["Collect"], postcondition="Export"), workers=1, env={"OUT_FILE": out}, scratch=scratch)
-        rows = tlc.read_ndjson(out)
+        rows = [dict(row, system="nh3_h2o") for row in tlc.read_ndjson(out)]
+        out2 = os.path.join(scratch, "mdinit2.ndjson")
+        g2 = tlc.run("MDInitGen", dict(spec="Spec", constants=dict(base, N1=3, N2=2, SeedMode="first", UserVelMode="asis"), invariants=INV + ["Collect"], postcondition="Export"), workers=1, env={"OUT_FILE": out2}, scratch=scratch)
+        if g.error or g2.error or g.violated or g2.violated:
+            rep.machinery("TLC MDInitGen: " + str(g.error or g2.error or g.violated or g2.violated)[:400])
+        # the diatomic system: every configuration with COM removal (where the DoF rule matters) + the seeded ones
+        rows += [dict(row, system="h2o_h2") for row in tlc.read_ndjson(out2) if row["cfg"]["com"] != "none" or row["cfg"]["seed"] != "none"]
         cases = [dict(row, steps=STEPS, stride=STRIDE, workdir=os.path.join(scratch, "c%04d" % n)) for n, row in enumerate(rows)]
         res = common.run_forked(cases, init_driver.run_cfg, timeout=600)
         obs = {}
@@ -47,15 +55,14 @@ def main(tier):
         worst = {"T0": 0.0, "p0": 0.0, "L0": 0.0, "com_p": 0.0, "com_L": 0.0, "com_dEk": 0.0}
         for c, rr in zip(cases, res):
             cfg = c["cfg"]
-            fields = dict(engine=cfg["engine"], com=cfg["com"], velsrc=cfg["velsrc"], seed=cfg["seed"], prior=cfg["prior"])
+            fields = dict(engine=cfg["engine"], com=cfg["com"], velsrc=cfg["velsrc"], seed=cfg["seed"], prior=cfg["prior"], system=c["system"])
             if not rr.get("ok"):
                 rep.violation("run_failed", {"cfg": cfg, "error": rr.get("error"), "tb": str(rr.get("tb"))[-400:]}, **fields)
                 continue
             o = rr["result"]
-            obs[common.sha(cfg)] = o
+            obs[common.sha([cfg, c["system"]])] = o
             bad = []
-            cons = 3 * 4 - c["dof"]
-            if o["n_atoms"] != [4, 3] or o["n_dof"] != [float(c["dof"]), float(3 * 3 - cons)]:
+            if o["n_atoms"] != list(SYSTEMS[c["system"]]) or o["n_dof"] != [float(x) for x in c["dof"]]:
                 bad.append(("n_dof", o["n_dof"], c["dof"]))
             want_draws = c["draws"] - (cfg["prior"] if c["origin"] == "hist" else 0)
             if o["draws"] != want_draws:
@@ -99,33 +106,28 @@ def main(tier):
             cfg = c["cfg"]
             if cfg["prior"] != 0:
                 continue
-            a = obs.get(common.sha(cfg))
-            b = obs.get(common.sha(dict(cfg, prior=17)))
+            a = obs.get(common.sha([cfg, c["system"]]))
+            b = obs.get(common.sha([dict(cfg, prior=17), c["system"]]))
             if a is None or b is None:
                 continue
             # (at Temp = 0 the thermostat noise has zero amplitude: nothing random enters the trajectory)
             uses_rng = cfg["velsrc"] == "drawn" or (cfg["engine"] in ("langevin", "xl_damped") and cfg["velsrc"] != "temp0")
-            fields = dict(engine=cfg["engine"], com=cfg["com"], velsrc=cfg["velsrc"], seed=cfg["seed"])
+            fields = dict(engine=cfg["engine"], com=cfg["com"], velsrc=cfg["velsrc"], seed=cfg["seed"], system=c["system"])
             if cfg["seed"] != "none" or not uses_rng:
                 n_rel += 1
                 if a["digest"] != b["digest"]:
                     rep.violation("trajectory_depends_on_prior_rng_history", {"cfg": cfg}, **fields)
             if cfg["seed"] == "s1" and uses_rng:
-                o2 = obs.get(common.sha(dict(cfg, seed="s2")))
+                o2 = obs.get(common.sha([dict(cfg, seed="s2"), c["system"]]))
                 n_rel += 1
                 if o2 is not None and o2["digest"] == a["digest"]:
                     rep.violation("different_seeds_give_same_trajectory", {"cfg": cfg}, **fields)
-        # linear molecule + angular COM removal: DoF count 3N-6 = 0 for a diatomic (the code's own TODO)
-        lin = dict(cfg={"engine": "basic", "com": "angular", "velsrc": "drawn", "seed": "s1", "prior": 0}, steps=2, stride=1, system="h2o_h2", workdir=os.path.join(scratch, "linear"))
-        lr = common.run_forked([lin], init_driver.run_cfg, timeout=300)[0]
-        if not lr.get("ok"):
-            rep.violation("run_failed", {"cfg": lin["cfg"], "system": "h2o_h2 (H2 is linear)", "error": lr.get("error")}, engine="basic", com="angular", velsrc="drawn", linear_molecule=True)
         cov = {
-            "states": r.distinct + g.distinct, "transitions": r.generated + g.generated, "traces_validated_against_impl": len(cases), "configurations_conforming": n_ok,
+            "states": r.distinct + g.distinct + g2.distinct, "transitions": r.generated + g.generated + g2.generated, "traces_validated_against_impl": len(cases), "configurations_conforming": n_ok,
             "samples": samples or [{"note": "none"}], "deviations_refuted_on_model": refuted, "relational_comparisons": n_rel, "monitored_worst": worst,
             "evaluations": len(cases), "distinct_nontrivial": len([c for c in cases if c["cfg"]["velsrc"] != "temp0" or c["cfg"]["com"] != "none"]),
             "rule": "every configuration engine x COM mode x velocity source x seed x prior history exported by TLC; non-trivial = velocities not all zero or COM removal on", "exhaustive": True,
         }
-        return rep.finish(cov, assumptions=["stub electronic structure; padded H2O + H2 batch", "linear molecules / single heavy atoms (DoF caveat noted in the code's TODO) not covered"])
+        return rep.finish(cov, assumptions=["stub electronic structure; padded NH3 + H2O batch and padded H2O + H2 batch (H2: diatomic, DoF 3N-5 with angular COM removal)", "linear molecules with more than two atoms keep the 3N-6 count of the code (its TODO); single atoms not covered"])
     finally:
         common.rm(scratch)
